@@ -12,6 +12,7 @@ hence the area of a scaled curved shape is sx·sy times the area, every moment m
 import ShapeVerif.Props.C09b
 import ShapeVerif.Proofs.AffineGen
 import ShapeVerif.Proofs.TranslateGen
+import ShapeVerif.Proofs.RotateGen
 
 namespace ShapeVerif.C09
 open ShapeVerif
@@ -86,6 +87,22 @@ theorem area_move_all (j : Jordan) (hj : ∀ s ∈ j, 2 ≤ s.length)
     (hchain : ∀ p ∈ j.zip (j.tail ++ j.take 1), (p.1.getLastD Pt.zero).y = (p.2.headD Pt.zero).y) (d : Pt) :
     Jordan.area (j.map (·.move d)) = Jordan.area j :=
   area_move_closed j hj (closed_chain_dy j hj hchain) d
+
+/-! ### rotation: the area of a CLOSED curve with pieces of any degree is invariant under every exact rotation -/
+
+/-- one piece: ∫ x' dy' of the rotated piece = (c² + s²) ∫ x dy + a term that depends only on the two end points -/
+theorem integral_rot (s : Seg) (hs : 2 ≤ s.length) (c sn : Rat) :
+    exactVertical (s.map (·.rot c sn)) 1 0
+      = (c * c + sn * sn) * exactVertical s 1 0
+        + c * sn * (((s.getLastD Pt.zero).x ^ 2 - (s.headD Pt.zero).x ^ 2) - ((s.getLastD Pt.zero).y ^ 2 - (s.headD Pt.zero).y ^ 2)) / 2
+        - sn * sn * ((s.getLastD Pt.zero).x * (s.getLastD Pt.zero).y - (s.headD Pt.zero).x * (s.headD Pt.zero).y) :=
+  exactVertical_rot s hs c sn
+
+/-- around a closed chain the end-point terms telescope: the signed area is invariant under rotation (c² + s² = 1), any degree -/
+theorem area_rot_all (j : Jordan) (hj : ∀ s ∈ j, 2 ≤ s.length)
+    (hchain : ∀ p ∈ j.zip (j.tail ++ j.take 1), p.1.getLastD Pt.zero = p.2.headD Pt.zero)
+    (c sn : Rat) (h : c * c + sn * sn = 1) : Jordan.area (j.map (·.rot c sn)) = Jordan.area j :=
+  area_rot_closed_all j hj hchain c sn h
 
 /-! non-vacuity: a cubic moved, scaled and rotated (3-4-5) agrees with the moved / scaled / rotated point of the curve -/
 example : evalSeg (([⟨0,0⟩, ⟨1,2⟩, ⟨3,0⟩, ⟨4,1⟩] : Seg).map (·.rot (3/5) (4/5))) (1/3)
